@@ -138,6 +138,13 @@ Theorem C19_report_fields :
 Proof. exact report_sound. Qed.
 Print Assumptions C19_report_fields.
 
+(* string parameters: every text is allowed by a schema entry of type string and is held verbatim by the reader *)
+Theorem C19_string_enforced :
+  forall p e, p_kind p = KStr -> f_type p e = true -> String.eqb (p_jtype p) "string" = true ->
+  forall s, schema_allows_string e s = true /\ read_string p s = Some s.
+Proof. exact string_enforced. Qed.
+Print Assumptions C19_string_enforced.
+
 (* the pinned tree refutes the names clause: 30 accepted input names are not published; none is extra *)
 Theorem C19_names_refuted :
   (exists n, In n pinned_accepted_names /\ ~ In n pinned_schema_names) /\
